@@ -124,7 +124,8 @@ Proof.
          | |- only_badmsg (Err EBadMsg) => reflexivity
          end.
 Qed.
-(* the property import: bad message (recursive alias) or system (key rejected), never a version error *)
+(* the property import: bad message (recursive alias; key rejected, fix DO91), never a version error
+   (sharper: CalLoadErrClass.props_ok_ob) *)
 Lemma props_ok_bs : forall n, badmsg_or_sys (props_ok n).
 Proof.
   fix IH 1. intros [s|items|pairs|]; simpl.
@@ -133,7 +134,7 @@ Proof.
     pose proof (IH x) as Hx. destruct (props_ok x); [exact IHr|exact Hx].
   - induction pairs as [|[k v] r IHr]; [exact I|].
     destruct k as [s|q|p|]; try exact IHr.
-    destruct (s_keyok s); [|right; reflexivity].
+    destruct (s_keyok s); [|left; reflexivity].
     pose proof (IH v) as Hv. destruct (props_ok v); [exact IHr|exact Hv].
   - left. reflexivity.
 Qed.
